@@ -686,7 +686,7 @@ def load(f, **options):  # type: (typing.IO, **typing.Any) -> canmatrix.CanMatri
                 frame = get_frame_by_id(arbitration_id_from_compound(int(temp.group(1))))
                 for ecu_name in temp.group(2).split(','):
                     frame.add_transmitter(ecu_name)
-            elif decoded.startswith("CM_ SG_ "):
+            elif re.match(r"CM_ +SG_ ", decoded):
                 pattern = r"^CM_ +SG_ +(\S+) +(\S+) +\"(.*)\" *;"
                 regexp = re.compile(pattern)
                 regexp_raw = re.compile(pattern.encode(dbc_import_encoding))
@@ -721,7 +721,7 @@ def load(f, **options):  # type: (typing.IO, **typing.Any) -> canmatrix.CanMatri
                                 (i, line))
                         follow_up = _FollowUps.SIGNAL_COMMENT
 
-            elif decoded.startswith("CM_ BO_ "):
+            elif re.match(r"CM_ +BO_ ", decoded):
                 pattern = r"^CM_ +BO_ +(\S+) +\"(.*)\" *;"
                 regexp = re.compile(pattern)
                 regexp_raw = re.compile(pattern.encode(dbc_import_encoding))
@@ -753,7 +753,7 @@ def load(f, **options):  # type: (typing.IO, **typing.Any) -> canmatrix.CanMatri
                                 "Error decoding line: %d (%s)" %
                                 (i, line))
                         follow_up = _FollowUps.FRAME_COMMENT
-            elif decoded.startswith("CM_ BU_ "):
+            elif re.match(r"CM_ +BU_ ", decoded):
                 pattern = r"^CM_ +BU_ +(\S+) +\"(.*)\" *;"
                 regexp = re.compile(pattern)
                 regexp_raw = re.compile(pattern.encode(dbc_import_encoding))
